@@ -5,11 +5,12 @@
 #include <ufw/length-prefix.h>
 
 typedef std::vector<uint8_t> Bytes;
-static const char *kname[] = {"varint", "octet", "le16", "le32", "be16", "be32"};
-static uint64_t kmax(int k) { switch (k) { case 1: return 255; case 2: case 4: return 65535; case 3: case 5: return 0xffffffffull; default: return (uint64_t)SSIZE_MAX; } }
+static const char *kname[] = {"varint", "octet", "le16", "le32", "be16", "be32", "varint-through-lenp_-wrappers"};
+static const int NK = 7;   // kind 6: the lenp_* convenience entry points (variable-length prefix without a kind argument)
+static uint64_t kmax(int k) { switch (k % 6) { case 1: return 255; case 2: case 4: return 65535; case 3: case 5: return 0xffffffffull; default: return (uint64_t)SSIZE_MAX; } }
 
 static Bytes ref_prefix(int k, uint64_t n) {
-    switch (k) {
+    switch (k % 6) {
     case 0: return ref::varint_encode(n);
     case 1: return {(uint8_t)n};
     case 2: return {(uint8_t)n, (uint8_t)(n >> 8)};
@@ -18,6 +19,20 @@ static Bytes ref_prefix(int k, uint64_t n) {
     default: return {(uint8_t)(n >> 24), (uint8_t)(n >> 16), (uint8_t)(n >> 8), (uint8_t)n};
     }
 }
+
+// entry-point dispatch: kinds 0..5 through flenp_*(kind, ...), kind 6 through the lenp_* wrappers
+#define VPK(k) ((LengthPrefixKind)(k))
+static int X_memory_encode(int k, LengthPrefixBuffer *l, void *m, size_t n) { return k == 6 ? lenp_memory_encode(l, m, n) : flenp_memory_encode(VPK(k), l, m, n); }
+static int X_buffer_encode(int k, LengthPrefixBuffer *l, ByteBuffer *b) { return k == 6 ? lenp_buffer_encode(l, b) : flenp_buffer_encode(VPK(k), l, b); }
+static int X_buffer_encode_n(int k, LengthPrefixBuffer *l, ByteBuffer *b, size_t n) { return k == 6 ? lenp_buffer_encode_n(l, b, n) : flenp_buffer_encode_n(VPK(k), l, b, n); }
+static int X_chunks_use(int k, LengthPrefixChunks *c) { return k == 6 ? lenp_chunks_use(c) : flenp_chunks_use(VPK(k), c); }
+static ssize_t X_memory_to_sink(int k, Sink *s, void *m, size_t n) { return k == 6 ? lenp_memory_to_sink(s, m, n) : flenp_memory_to_sink(VPK(k), s, m, n); }
+static ssize_t X_buffer_to_sink(int k, Sink *s, ByteBuffer *b) { return k == 6 ? lenp_buffer_to_sink(s, b) : flenp_buffer_to_sink(VPK(k), s, b); }
+static ssize_t X_buffer_to_sink_n(int k, Sink *s, ByteBuffer *b, size_t n) { return k == 6 ? lenp_buffer_to_sink_n(s, b, n) : flenp_buffer_to_sink_n(VPK(k), s, b, n); }
+static ssize_t X_chunks_to_sink(int k, Sink *s, ByteChunks *c) { return k == 6 ? lenp_chunks_to_sink(s, c) : flenp_chunks_to_sink(VPK(k), s, c); }
+static ssize_t X_memory_from_source(int k, Source *s, void *m, size_t n) { return k == 6 ? lenp_memory_from_source(s, m, n) : flenp_memory_from_source(VPK(k), s, m, n); }
+static ssize_t X_buffer_from_source(int k, Source *s, ByteBuffer *b) { return k == 6 ? lenp_buffer_from_source(s, b) : flenp_buffer_from_source(VPK(k), s, b); }
+static ssize_t X_decode_source_to_sink(int k, Source *s, Sink *t) { return k == 6 ? lenp_decode_source_to_sink(s, t) : flenp_decode_source_to_sink(VPK(k), s, t); }
 static uint8_t pay(size_t i) { return (uint8_t)(0x21 + 5 * i + (i >> 8)); }
 
 // A case is a compact line of integers; op selects the entry point.
@@ -59,7 +74,7 @@ static bool parse(const std::string &t, Case &c) {
     while (i < w.size() && w[i] != "F") c.lens.push_back(strtoull(w[i++].c_str(), 0, 10));
     if (i < w.size()) i++;
     while (i < w.size()) c.frag.push_back(atoi(w[i++].c_str()));
-    return c.k >= 0 && c.k < 6;
+    return c.k >= 0 && c.k < NK;
 }
 static Case g_cur;
 static void F(const Case &c, const std::string &key, const std::string &msg) {
@@ -85,7 +100,7 @@ static void op_encode_objects(const Case &c) {
     if (c.op == 1) {
         size_t n = (size_t)c.n;
         vp::Block mem(n); for (size_t i = 0; i < n; i++) mem.p[i] = pay(i);
-        int rc = flenp_memory_encode((LengthPrefixKind)c.k, &lpb, mem.p, n);
+        int rc = X_memory_encode(c.k, &lpb, mem.p, n);
         if (n > kmax(c.k)) { if (rc >= 0) F(c, "over-maximum-accepted", vp::fmt("n=%zu accepted", n)); return; }
         if (rc != 0) { F(c, "refused", vp::fmt("rc=%d for n=%zu", rc, n)); return; }
         if (!prefix_ok(c, lpb.prefix, lpb.prefix_, n)) return;
@@ -95,7 +110,7 @@ static void op_encode_objects(const Case &c) {
         ByteBuffer before = src.b;
         size_t rest = c.bused - c.boff;
         if (c.op == 2) {
-            int rc = flenp_buffer_encode((LengthPrefixKind)c.k, &lpb, &src.b);
+            int rc = X_buffer_encode(c.k, &lpb, &src.b);
             if (rest == 0) { vp::stats().dontcare++; return; }
             if (rest > kmax(c.k)) { if (rc >= 0) F(c, "over-maximum-accepted", "accepted"); return; }
             if (rc != 0) { F(c, "refused", vp::fmt("rc=%d", rc)); return; }
@@ -103,7 +118,7 @@ static void op_encode_objects(const Case &c) {
             if (lpb.payload.data + lpb.payload.offset != src.blk.p + c.boff || byte_buffer_rest(&lpb.payload) != rest) F(c, "payload-designation", "payload is not the buffer's unread content");
         } else {
             size_t n = (size_t)c.n;
-            int rc = flenp_buffer_encode_n((LengthPrefixKind)c.k, &lpb, &src.b, n);
+            int rc = X_buffer_encode_n(c.k, &lpb, &src.b, n);
             if (n > rest) {
                 if (rc >= 0) F(c, "n-beyond-unread-accepted", vp::fmt("n=%zu rest=%zu rc=%d", n, rest, rc));
                 else if (src.b.offset != before.offset || src.b.used != before.used) F(c, "refused-but-buffer-changed", "buffer fields changed by a refused call");
@@ -134,7 +149,7 @@ static void op_chunks(const Case &c) {
     if (c.op == 4) {
         LengthPrefixChunks lpc; memset(&lpc, 0, sizeof lpc);
         lpc.payload.chunks = arr.size(); lpc.payload.active = c.active; lpc.payload.chunk = arr.data();
-        int rc = flenp_chunks_use((LengthPrefixKind)c.k, &lpc);
+        int rc = X_chunks_use(c.k, &lpc);
         if (n == 0) vp::stats().dontcare++;
         else if (n > kmax(c.k)) { if (rc >= 0) F(c, "over-maximum-accepted", "accepted"); }
         else if (rc != 0) F(c, "refused", vp::fmt("rc=%d", rc));
@@ -142,7 +157,7 @@ static void op_chunks(const Case &c) {
     } else {
         ByteChunks bc; bc.chunks = arr.size(); bc.active = c.active; bc.chunk = arr.data();
         ep::ScriptSink snk(!c.octet_src); snk.script.steps = c.frag;   // for the encoders, octet_src / frag describe the sink: octet-style, or a chunk sink with short writes and EINTR
-        ssize_t rc = flenp_chunks_to_sink((LengthPrefixKind)c.k, &snk.snk, &bc);
+        ssize_t rc = X_chunks_to_sink(c.k, &snk.snk, &bc);
         if (n == 0) vp::stats().dontcare++;
         else if (n > kmax(c.k)) { if (rc >= 0) F(c, "over-maximum-accepted", "accepted"); else if (!snk.got.empty()) F(c, "refused-after-emission", "octets emitted before the refusal"); }
         else {
@@ -159,7 +174,7 @@ static void op_to_sink(const Case &c) {
     if (c.op == 5) {
         size_t n = (size_t)c.n;
         vp::Block mem(n); for (size_t i = 0; i < n; i++) mem.p[i] = pay(i);
-        ssize_t rc = flenp_memory_to_sink((LengthPrefixKind)c.k, &snk.snk, mem.p, n);
+        ssize_t rc = X_memory_to_sink(c.k, &snk.snk, mem.p, n);
         if (n > kmax(c.k)) { if (rc >= 0) F(c, "over-maximum-accepted", "accepted"); else if (!snk.got.empty()) F(c, "refused-after-emission", "octets emitted before the refusal"); return; }
         Bytes want = ref_prefix(c.k, n); want.insert(want.end(), mem.p, mem.p + n);
         if (rc != (ssize_t)want.size()) F(c, "return", vp::fmt("returned %zd, total is %zu", rc, want.size()));
@@ -170,7 +185,7 @@ static void op_to_sink(const Case &c) {
     ByteBuffer before = src.b;
     size_t rest = c.bused - c.boff;
     size_t n = c.op == 6 ? rest : (size_t)c.n;
-    ssize_t rc = c.op == 6 ? flenp_buffer_to_sink((LengthPrefixKind)c.k, &snk.snk, &src.b) : flenp_buffer_to_sink_n((LengthPrefixKind)c.k, &snk.snk, &src.b, n);
+    ssize_t rc = c.op == 6 ? X_buffer_to_sink(c.k, &snk.snk, &src.b) : X_buffer_to_sink_n(c.k, &snk.snk, &src.b, n);
     if (c.op == 7 && n > rest) {
         if (rc >= 0) F(c, "n-beyond-unread-accepted", vp::fmt("n=%zu rest=%zu rc=%zd", n, rest, rc));
         else if (!snk.got.empty()) F(c, "refused-after-emission", "octets emitted before the refusal");
@@ -190,11 +205,11 @@ static void op_huge(const Case &c) {
     uint64_t n = c.n;
     static unsigned char dummy[16];
     LengthPrefixBuffer lpb; memset(&lpb, 0, sizeof lpb);
-    int rc = flenp_memory_encode((LengthPrefixKind)c.k, &lpb, dummy, (size_t)n);
+    int rc = X_memory_encode(c.k, &lpb, dummy, (size_t)n);
     if (n > kmax(c.k)) {
         if (rc >= 0) F(c, "over-maximum-accepted", vp::fmt("n=%llu accepted by flenp_memory_encode", (unsigned long long)n));
         ep::ScriptSink snk(true);
-        ssize_t r2 = flenp_memory_to_sink((LengthPrefixKind)c.k, &snk.snk, dummy, (size_t)n);
+        ssize_t r2 = X_memory_to_sink(c.k, &snk.snk, dummy, (size_t)n);
         if (r2 >= 0) F(c, "over-maximum-accepted", "accepted by flenp_memory_to_sink");
         else if (!snk.got.empty()) F(c, "refused-after-emission", "octets emitted before the refusal");
     } else {
@@ -222,7 +237,7 @@ static void op_decode(const Case &c) {
         if (!VP_BUDGET(200 + 8 * stream.size())) { F(c, "no-progress", "decoder keeps calling the source"); return; }
         if (c.dec == 1) {
             vp::Block dst((size_t)cap, 0xee);
-            rc = flenp_memory_from_source((LengthPrefixKind)c.k, &src.src, dst.p, (size_t)cap);
+            rc = X_memory_from_source(c.k, &src.src, dst.p, (size_t)cap);
             vp::budget().armed = false;
             if ((size_t)cap >= p.size()) {
                 if (rc != (ssize_t)p.size()) { F(c, "return", vp::fmt("frame %zu: returned %zd, payload has %zu octets", f, rc, p.size())); return; }
@@ -241,8 +256,8 @@ static void op_decode(const Case &c) {
             ByteBuffer db; db.data = mem.p; db.size = size; db.used = c.pre_used; db.offset = std::min(c.pre_off, c.pre_used);
             ByteBuffer before = db;
             if (size == 0) { vp::budget().armed = false; vp::stats().dontcare++; return; }
-            if (c.dec == 2) rc = flenp_buffer_from_source((LengthPrefixKind)c.k, &src.src, &db);
-            else { Sink snk; sink_to_buffer(&snk, &db); rc = flenp_decode_source_to_sink((LengthPrefixKind)c.k, &src.src, &snk); }
+            if (c.dec == 2) rc = X_buffer_from_source(c.k, &src.src, &db);
+            else { Sink snk; sink_to_buffer(&snk, &db); rc = X_decode_source_to_sink(c.k, &src.src, &snk); }
             vp::budget().armed = false;
             for (size_t i = 0; i < c.pre_used; i++) if (mem.p[i] != (uint8_t)(0xc1 + i)) { F(c, "previous-content-overwritten", vp::fmt("octet %zu of the filled region changed", i)); return; }
             if (db.data != before.data || db.size != before.size || !(db.offset <= db.used && db.used <= db.size)) { F(c, "destination-descriptor", "destination buffer descriptor broken"); return; }
@@ -288,7 +303,7 @@ static void run() {
     vp::CaseScope scope([] { return ser(g_cur); });
     bool T = a.thorough();
     size_t maxbuf = T ? 10 : 7;
-    vp::stats().rule = vp::fmt("enum: 6 prefix kinds x lengths 1..1100 and kind maxima +-1 through memory_encode/memory_to_sink; every buffer state (size<=%zu, offset<=used<=size) x n in 0..rest+1 through "
+    vp::stats().rule = vp::fmt("enum: 6 prefix kinds (+ the lenp_* wrapper entry points for the variable-length kind) x lengths 1..1100 and kind maxima +-1 through memory_encode/memory_to_sink; every buffer state (size<=%zu, offset<=used<=size) x n in 0..rest+1 through "
                                "buffer_encode(_n)/buffer_to_sink(_n); chunk lists of 1..3 small chunks incl. empty/partly consumed ones; huge lengths (2^32-1, 2^32, SSIZE_MAX+-) through prefix objects; "
                                "decoding of 1..3-frame streams in every fragmentation (stream length <= %d) by chunk and octet sources into memory/buffer/buffer-sink destinations of capacity len-1/len/len+1, "
                                "destinations with previous content", maxbuf, T ? 15 : 12);
@@ -296,7 +311,7 @@ static void run() {
     uint64_t idx = 0;
     auto mine = [&]() { return idx++ % a.nshards == a.shard; };
     // lengths through memory entry points
-    for (int k = 0; k < 6; k++) {
+    for (int k = 0; k < NK; k++) {
         std::vector<uint64_t> lens;
         for (uint64_t n = 1; n <= 1100; n++) lens.push_back(n);
         for (uint64_t n : std::vector<uint64_t>{16383, 16384, 65534, 65535, 65536, 65537}) lens.push_back(n);
@@ -314,7 +329,7 @@ static void run() {
         }
     }
     // buffer states
-    for (int k = 0; k < 6; k++)
+    for (int k = 0; k < NK; k++)
         for (size_t size = 1; size <= maxbuf; size++) for (size_t used = 0; used <= size; used++) for (size_t off = 0; off <= used; off++) {
             if (!mine()) continue;
             for (int op : {2, 6}) { Case c = mk(op, k); c.bsize = size; c.bused = used; c.boff = off; if (op == 6) run_sinks(c); else run_case(c); }
@@ -322,14 +337,14 @@ static void run() {
             if (off > 0 && used < size) { vp::nontrivial(vp::mix(vp::mix(vp::mix(size, used), off), k + 200)); vp::cls("buffer-with-offset-and-free-space"); } else vp::cls("buffer-plain");
         }
     // larger buffers (lengths across the one-octet boundary), sampled states
-    for (int k = 0; k < 6; k++) for (size_t size : {200u, 300u}) for (size_t used : {130u, 200u}) for (size_t off : {0u, 1u, 3u}) {
+    for (int k = 0; k < NK; k++) for (size_t size : {200u, 300u}) for (size_t used : {130u, 200u}) for (size_t off : {0u, 1u, 3u}) {
         if (!mine()) continue;
         for (int op : {2, 6}) { Case c = mk(op, k); c.bsize = size; c.bused = used; c.boff = off; run_case(c); }
         for (size_t n : {1u, 127u, 128u, 129u}) for (int op : {3, 7}) { Case c = mk(op, k, n); c.bsize = size; c.bused = used; c.boff = off; run_case(c); }
     }
     // chunk lists
     std::vector<std::array<size_t, 3>> cs = {{1, 0, 0}, {1, 1, 0}, {1, 1, 1}, {2, 2, 0}, {2, 2, 1}, {3, 2, 1}, {3, 3, 3}, {3, 0, 0}, {4, 4, 0}};
-    for (int k = 0; k < 6; k++)
+    for (int k = 0; k < NK; k++)
         for (size_t nch = 1; nch <= (T ? 4u : 3u); nch++) {
             uint64_t total = 1; for (size_t i = 0; i < nch; i++) total *= cs.size();
             for (uint64_t code = 0; code < total; code++) for (size_t active = 0; active <= (nch > 1 ? 1u : 0u); active++) {
@@ -345,7 +360,7 @@ static void run() {
     // decoding: every fragmentation of short streams
     std::vector<std::vector<size_t>> framesets = {{1}, {2}, {3}, {1, 1}, {2, 1}, {1, 3}, {1, 1, 1}, {2, 2, 1}, {4}, {1, 2, 2}};
     size_t maxstream = T ? 15 : 12;
-    for (int k = 0; k < 6; k++) for (auto &fs : framesets) {
+    for (int k = 0; k < NK; k++) for (auto &fs : framesets) {
         size_t slen = 0; for (size_t l : fs) slen += l + ref_prefix(k, l).size();
         if (slen > maxstream) continue;
         for (int dec = 1; dec <= 3; dec++) for (int capd = -1; capd <= 1; capd++) for (size_t pre = 0; pre <= (dec == 1 ? 0u : 2u); pre++) {
@@ -368,7 +383,7 @@ static void run() {
     vp::Rng rng(a.seed * 4409 + a.shard);
     size_t nrand = (T ? 400000 : 40000) / a.nshards;
     for (size_t i = 0; i < nrand; i++) {
-        Case c = mk(10, (int)rng.below(6)); c.dec = (int)rng.range(1, 3);
+        Case c = mk(10, (int)rng.below(NK)); c.dec = (int)rng.range(1, 3);
         size_t nf = (size_t)rng.range(1, 4);
         for (size_t f = 0; f < nf; f++) { size_t l = rng.chance(1, 4) ? (size_t)rng.range(120, 1100) : (size_t)rng.range(1, 40); if (c.k == 1 && l > 255) l = 255; c.lens.push_back(l); }
         c.capdelta = (int)rng.range(-1, 2); c.pre_used = c.dec == 1 ? 0 : (size_t)rng.range(0, 5); c.pre_off = c.pre_used ? (size_t)rng.below(c.pre_used + 1) : 0;
